@@ -324,7 +324,7 @@ def cbmc_cmd(h, g, info, trace=False):
         c += ["--unwindset", ",".join(info["unwindset"])]
     if trace:
         c += ["--trace"]
-    c += [g, "--json-ui"]
+    c += [g, "--json-ui", "--verbosity", "8"]
     return c
 
 
@@ -357,6 +357,8 @@ def parse_cbmc(txt):
             m = re.search(r"Runtime Solver: ([0-9.e+-]+)s", mt)
             if m:
                 out["solver_s"] += float(m.group(1))
+            if "Running propositional reduction" in mt:
+                out["sat_calls"] = out.get("sat_calls", 0) + 1
             if item.get("messageType") == "ERROR":
                 out["errors"].append(mt)
         if "result" in item:
@@ -503,7 +505,7 @@ def _run_one(h, built, prop_id, tier):
     status, fails, notes = classify(h, parsed, info, pm)
     rec.update(status=status, failures=fails, notes=notes, wall_s=time.time() - t0,
                vccs=parsed["vccs"], vccs_remaining=parsed["vccs_remaining"], steps=parsed["steps"],
-               variables=parsed["variables"], clauses=parsed["clauses"], solver_s=parsed["solver_s"],
+               variables=parsed["variables"], clauses=parsed["clauses"], solver_s=parsed["solver_s"], sat_calls=parsed.get("sat_calls", 0),
                info={"t1_removed": len(info["t1_removed"]), "cuts": info["cuts"], "unwindset": info["unwindset"]},
                goto=g)
     rec["_h"] = h
